@@ -1568,6 +1568,13 @@ func (s *Netceptor) handleRoutingUpdate(ri *routingUpdate, recvConn string) {
 
 // Handles a ping request.
 func (s *Netceptor) handlePing(md *MessageData) error {
+	if md.FromService == "ping" {
+		// Replies are sent from the "ping" service: answering a message that claims to come
+		// from it would bounce between the two ping services for ever (and recurse without
+		// bound when both are on this node).
+		return nil
+	}
+
 	return s.sendMessage("ping", md.FromNode, md.FromService, []byte{})
 }
 
